@@ -121,4 +121,36 @@ theorem countGT_le (tol : Rat) (l : List Rat) : countGT tol l ≤ l.length := by
   | nil => simp [countGT]
   | cons x xs ih => simp only [countGT, List.length_cons]; split <;> omega
 
+/-- if the first `n` values (smallest first) together stay strictly below the threshold, the `>=` loop discards at
+    least `n` of them -/
+theorem dropGE_ge (thr : Rat) (l : List Rat) (d : Rat) (n : Nat) (hn : n ≤ l.length)
+    (h : d + sqsum (l.take n) < thr) : n ≤ dropGE thr l d := by
+  induction l generalizing d n with
+  | nil => simp at hn; omega
+  | cons x xs ih =>
+    cases n with
+    | zero => omega
+    | succ m =>
+      rw [List.take_succ_cons] at h
+      simp only [sqsum] at h
+      have hnn := sqsum_nonneg (xs.take m)
+      have hx : ¬ (d + x * x ≥ thr) := by
+        intro hc; linarith
+      simp only [dropGE, hx, if_false]
+      have := ih (d + x * x) m (by simpa using hn) (by linarith)
+      omega
+
+/-- a state whose total weight reaches the threshold makes the `>=` loop break -/
+theorem brokeGE_of_total (thr : Rat) (l : List Rat) (d : Rat) (hd : d < thr) (h : thr ≤ d + sqsum l) :
+    brokeGE thr l d = true := by
+  induction l generalizing d with
+  | nil => simp [sqsum] at h; linarith
+  | cons x xs ih =>
+    simp only [brokeGE]
+    split
+    · rfl
+    · rename_i hx
+      simp only [sqsum] at h
+      exact ih (d + x * x) (not_le.mp hx) (by linarith)
+
 end Yaqs.Rank
